@@ -128,6 +128,22 @@ def step (d : D) (op impl : String) : D × DrvOut :=
         else "ok"
       ({ redactSet := rs }, { model := "ok", spec })
     | _, _, _ => (d, { model := "bad-op", spec := "FAIL unparsable reset line" })
+  | ["probe", _, _, _] =>
+    -- names that are not configuration keys: whatever is served (status 200) must be redacted
+    let spec := match words impl with
+      | [items, leaks, pure] =>
+        let served := (items.splitOn ",").filterMap fun e => match e.splitOn "=" with
+          | [_, r] => if r.startsWith "200:" then some (dropPre r 4) else none
+          | _ => none
+        match served.mapM decPair with
+        | none => "FAIL unparsable implementation answer"
+        | some ps =>
+          if !(ps.all safePath) then "FAIL a password value is served by config/paths/get/<name> for a name that is not a configuration key"
+          else if leaks != "leaks=0" then "FAIL a password string occurs in the body of config/paths/get/<name> for a name that is not a configuration key"
+          else if pure != "pure=1" then "FAIL serving config/paths/get modified the live configuration"
+          else "ok"
+      | _ => "FAIL unparsable implementation answer: " ++ (impl.take 80).toString
+    (d, { model := "-", spec })
   | kind :: _ :: cols =>
     if kind != "cfg" && kind != "cfgbig" then stepDump d op impl else
     match parseCfg cols with
